@@ -16,18 +16,28 @@
      small t1   every buffer of the saved tree is below 4 GiB (no uint32 wrap in GenSecHeader)
      strip      forgets FileOrder / DataOffset metadata
 
-   STAGES of C06_semantic_preservation / C06_save_fixed_point
-     stage 1 (sections: compressed sections nested to any depth around leaf sections)   PROVED
-     stage 2 (files holding such sections)                                              PROVED
-     stage 3 (volumes: FV-image sections, nested volumes, the BIOS region)              NOT PROVED
-   so the two main theorems carry the suffix _partial: they are the full statement for a file (or a
-   section) subtree.  The gap is exactly the volume layer: that parse_fv applied to the bytes
-   asm_vol/place_files wrote finds the same files again (plus inserted pad files) and reads the
-   same header fields.  The intended full statement:
-     forall x t, parse_region d x = Ok t -> wf_region t ->
-       deep (parse (save t)) = deep t  /\  save (parse (save t)) = save t.
-   Volumes are covered by the correspondence run and the oracles of harness/cmd/c06. *)
-From Fiano Require Import Base.Bytes Base.BytesLemmas Model.Ffs Proofs.FfsCodecProofs.
+   STAGES of C06_semantic_preservation / C06_save_fixed_point — all three are PROVED:
+     stage 1 (sections: compressed sections nested to any depth around leaf sections)
+     stage 2 (files holding such sections)
+     stage 3 (volumes — top level or nested through FV-image sections inside compressed sections
+              inside files inside volumes ..., to any depth)
+   The volume-level theorems keep the suffix _partial because they cover the volumes of the
+   reference grammar (Model/FfsSpec.v vol_bytes_x) and stop below the BIOS region:
+     * erase polarity 0xFF; header = 56 fixed bytes + block map (any number of entries) + terminator,
+       optionally followed by an extended header; at least one file
+     * [laid t1] (a condition on the SAVED tree, like [small t1]): inside volumes every node is
+       below 16 MiB (so the FFS3 flag is never raised: that switch is ffs3_switch), the files meet
+       their data alignment at their natural position (Assemble inserts no new pad file) and their
+       total size is below 2^63
+     * a nested volume whose files no longer fit grows to whole blocks; this needs a power-of-two
+       block size >= 8 and a single block-map entry (hypotheses of wf_vol for resizable volumes);
+       the old length is a multiple of 8
+     * NOT covered: the BIOS-region / flash-image level (asm_bios, parse_bios), volumes emptied of
+       all files, NVAR stores.
+   [wf] now also has FV-image sections around a nested volume and volumes whose header record and
+   first bytes are the reference header (what the parser returns for such a volume); for those the
+   polarity parameter is 255. *)
+From Fiano Require Import Base.Bytes Base.BytesLemmas Model.Ffs Model.FfsSpec Proofs.FfsVolLemmas Proofs.FfsCodecProofs.
 Open Scope Z_scope.
 
 (* ---- stage 1, base case: one compressed section around leaf sections.  Parsing what GenSecHeader
@@ -48,12 +58,13 @@ Theorem C06_compressed_section_roundtrip :
 Proof. intros dec enc u2s s2u nvar. exact (compressed_leaves_roundtrip dec enc u2s s2u nvar). Qed.
 Print Assumptions C06_compressed_section_roundtrip.
 
-(* ---- stage 1: a section subtree (compressed sections nested to any depth) ---- *)
+(* ---- stage 1: a section subtree (compressed sections nested to any depth; FV-image sections with
+   nested volumes are covered through stage 3) ---- *)
 Theorem C06_semantic_preservation_sections :
   forall (dec enc : Z -> bytes -> option bytes) (u2s s2u : bytes -> bytes) (nvar : bytes -> option bytes),
   (forall k x y, enc k x = Some y -> dec k y = Some x) ->
   forall pol t, wf dec enc u2s s2u nvar pol t -> is_sec t ->
-  forall st t1 st1, asm enc s2u t st = Ok (t1, st1) -> small t1 ->
+  forall f t1 st1, asm enc s2u t (pol, f) = Ok (t1, st1) -> small t1 -> laid t1 ->
   forall d rest i, (height t1 <= d)%nat ->
   exists t2, parse_section dec u2s nvar d pol (node_buf t1 ++ rest) i = Ok (t2, pol) /\ deep t2 = deep t.
 Proof. exact sec_semantic_preservation. Qed.
@@ -63,40 +74,70 @@ Theorem C06_save_fixed_point_sections :
   forall (dec enc : Z -> bytes -> option bytes) (u2s s2u : bytes -> bytes) (nvar : bytes -> option bytes),
   (forall k x y, enc k x = Some y -> dec k y = Some x) ->
   forall pol t, wf dec enc u2s s2u nvar pol t -> is_sec t ->
-  forall st t1 st1, asm enc s2u t st = Ok (t1, st1) -> small t1 ->
+  forall f t1 st1, asm enc s2u t (pol, f) = Ok (t1, st1) -> small t1 -> laid t1 ->
   forall d rest i t2, (height t1 <= d)%nat ->
   parse_section dec u2s nvar d pol (node_buf t1 ++ rest) i = Ok (t2, pol) ->
-  forall st', exists t3 st3, asm enc s2u t2 st' = Ok (t3, st3) /\ node_buf t3 = node_buf t1.
+  forall f', exists t3 st3, asm enc s2u t2 (pol, f') = Ok (t3, st3) /\ node_buf t3 = node_buf t1.
 Proof. exact sec_save_fixed_point. Qed.
 Print Assumptions C06_save_fixed_point_sections.
 
-(* ---- stage 2 = the furthest stage proved: a file with its sections.
-   Save the tree, parse the written bytes (in any context): same decompressed tree ... ---- *)
-Theorem C06_semantic_preservation_partial :
+(* ---- stage 2: a file with its sections ---- *)
+Theorem C06_semantic_preservation_files :
   forall (dec enc : Z -> bytes -> option bytes) (u2s s2u : bytes -> bytes) (nvar : bytes -> option bytes),
   (forall k x y, enc k x = Some y -> dec k y = Some x) ->
   forall pol t, wf dec enc u2s s2u nvar pol t -> is_file t ->
-  forall st t1 st1, asm enc s2u t st = Ok (t1, st1) -> small t1 ->
+  forall f t1 st1, asm enc s2u t (pol, f) = Ok (t1, st1) -> small t1 -> laid t1 ->
   forall d rest, (height t1 <= d)%nat ->
   exists t2, parse_file dec u2s nvar d pol (node_buf t1 ++ rest) = Ok (Some t2, pol) /\ deep t2 = deep t.
 Proof. exact file_semantic_preservation. Qed.
+Print Assumptions C06_semantic_preservation_files.
+
+Theorem C06_save_fixed_point_files :
+  forall (dec enc : Z -> bytes -> option bytes) (u2s s2u : bytes -> bytes) (nvar : bytes -> option bytes),
+  (forall k x y, enc k x = Some y -> dec k y = Some x) ->
+  forall pol t, wf dec enc u2s s2u nvar pol t -> is_file t ->
+  forall f t1 st1, asm enc s2u t (pol, f) = Ok (t1, st1) -> small t1 -> laid t1 ->
+  forall d rest t2, (height t1 <= d)%nat ->
+  parse_file dec u2s nvar d pol (node_buf t1 ++ rest) = Ok (Some t2, pol) ->
+  forall f', exists t3 st3, asm enc s2u t2 (pol, f') = Ok (t3, st3) /\ node_buf t3 = node_buf t1.
+Proof. exact file_save_fixed_point. Qed.
+Print Assumptions C06_save_fixed_point_files.
+
+(* trees without volumes meet the layout condition trivially *)
+Theorem C06_no_volume_no_layout_condition : forall n, novol n -> laid n.
+Proof. exact novol_laid. Qed.
+Print Assumptions C06_no_volume_no_layout_condition.
+
+(* ---- stage 3 = the furthest stage proved: a volume (top level or nested) whose files may hold
+   compressed sections that hold FV-image sections with nested volumes, to any depth.
+   Save the tree, parse the written volume (in any context, erase polarity not yet known or 0xFF,
+   with the node's own offset / resizable arguments): same decompressed tree ... ---- *)
+Theorem C06_semantic_preservation_partial :
+  forall (dec enc : Z -> bytes -> option bytes) (u2s s2u : bytes -> bytes) (nvar : bytes -> option bytes),
+  (forall k x y, enc k x = Some y -> dec k y = Some x) ->
+  forall t, wf dec enc u2s s2u nvar 255 t -> is_vol t ->
+  forall f t1 st1, asm enc s2u t (255, f) = Ok (t1, st1) -> small t1 -> laid t1 ->
+  forall d pol0 rest, (height t1 <= d)%nat -> (pol0 = 240 \/ pol0 = 255) ->
+  exists t2, parse_fv dec u2s nvar d pol0 (node_buf t1 ++ rest) (vol_off t1) (vol_rz t1) = Ok (t2, 255) /\
+             deep t2 = deep t.
+Proof. exact vol_semantic_preservation. Qed.
 Print Assumptions C06_semantic_preservation_partial.
 
 (* ... and saving the re-parsed tree writes the same bytes (enc is a function; nothing else is used) *)
 Theorem C06_save_fixed_point_partial :
   forall (dec enc : Z -> bytes -> option bytes) (u2s s2u : bytes -> bytes) (nvar : bytes -> option bytes),
   (forall k x y, enc k x = Some y -> dec k y = Some x) ->
-  forall pol t, wf dec enc u2s s2u nvar pol t -> is_file t ->
-  forall st t1 st1, asm enc s2u t st = Ok (t1, st1) -> small t1 ->
-  forall d rest t2, (height t1 <= d)%nat ->
-  parse_file dec u2s nvar d pol (node_buf t1 ++ rest) = Ok (Some t2, pol) ->
-  forall st', exists t3 st3, asm enc s2u t2 st' = Ok (t3, st3) /\ node_buf t3 = node_buf t1.
-Proof. exact file_save_fixed_point. Qed.
+  forall t, wf dec enc u2s s2u nvar 255 t -> is_vol t ->
+  forall f t1 st1, asm enc s2u t (255, f) = Ok (t1, st1) -> small t1 -> laid t1 ->
+  forall d pol0 rest t2, (height t1 <= d)%nat -> (pol0 = 240 \/ pol0 = 255) ->
+  parse_fv dec u2s nvar d pol0 (node_buf t1 ++ rest) (vol_off t1) (vol_rz t1) = Ok (t2, 255) ->
+  forall f', exists t3 st3, asm enc s2u t2 (255, f') = Ok (t3, st3) /\ node_buf t3 = node_buf t1.
+Proof. exact vol_save_fixed_point. Qed.
 Print Assumptions C06_save_fixed_point_partial.
 
-(* ---- towards stage 3: the FV-image section Assemble writes around a nested volume [vb] parses, in any
+(* ---- a building block of stage 3: the FV-image section Assemble writes around a nested volume [vb] parses, in any
    context, to a section whose only child is what the volume parser [rf] makes of exactly [vb].  With
-   stage 2 for the file around it, what remains open is only: parse_fv applied to asm_vol's output. ---- *)
+   stage 2 for the file around it, the volume layer is all that stage 3 adds. ---- *)
 Theorem C06_fv_image_section_transparent :
   forall (dec : Z -> bytes -> option bytes) (u2s : bytes -> bytes) rs rf pol h vb h' nb rest i v2 pol',
   s_type h = 23 -> s_gd h = None -> 0 < zlen vb < SZ -> gen_sec_header h vb = (h', nb) ->
@@ -109,18 +150,15 @@ Print Assumptions C06_fv_image_section_transparent.
 
 (* ---- idempotence, at full strength ---- *)
 
-(* what Assemble wrote is a fixed point of Assemble: the very same node comes back *)
+(* what Assemble wrote is an exact fixed point of Assemble: the very same node comes back (sections,
+   files and volumes) *)
 Theorem C06_assembled_is_fixed :
   forall (dec enc : Z -> bytes -> option bytes) (u2s s2u : bytes -> bytes) (nvar : bytes -> option bytes),
   (forall k x y, enc k x = Some y -> dec k y = Some x) ->
   forall pol t, wf dec enc u2s s2u nvar pol t ->
-  forall st t1 st1, asm enc s2u t st = Ok (t1, st1) -> small t1 ->
-  forall st', exists st'', asm enc s2u t1 st' = Ok (t1, st'').
-Proof.
-  intros dec enc u2s s2u nvar Hc pol t Hw st t1 st1 Ha Hs.
-  exact (canon_asm_fixed dec enc u2s s2u nvar Hc pol t1
-           (proj1 (asm_canon dec enc u2s s2u nvar Hc pol t Hw st t1 st1 Ha Hs))).
-Qed.
+  forall f t1 st1, asm enc s2u t (pol, f) = Ok (t1, st1) -> small t1 -> laid t1 ->
+  forall f', exists f'', asm enc s2u t1 (pol, f') = Ok (t1, (pol, f'')).
+Proof. exact assembled_is_fixed. Qed.
 Print Assumptions C06_assembled_is_fixed.
 
 Theorem C06_gen_sec_header_idempotent : forall h body,
@@ -140,20 +178,29 @@ Theorem C06_file_regen_idempotent : forall h data, zlen (f_guid h) = 16 ->
 Proof. exact file_regen_idem. Qed.
 Print Assumptions C06_file_regen_idempotent.
 
-(* ---- an edit inside a nested volume: the volume grows in whole blocks, the block count is rewritten,
-   enclosing section and file sizes are those of their content ---- *)
+(* ---- an edit inside a nested volume: when the files no longer fit, the volume gets the length
+   [resize_len] computes (uint64 arithmetic, only the first block-map entry is resized), the block
+   count and the length field in the bytes are rewritten ---- *)
 Theorem C06_nested_edit_sizes : forall pol ffs3 h buf files h' nb c s rest hdr b1,
   files <> [] -> v_resizable h = true -> v_blocks h = (c, s) :: rest ->
   slice 0 (v_dataoff h) buf = Some hdr ->
   place_files pol None hdr (v_dataoff h) files = Ok b1 ->     (* the files laid out after the header *)
   v_length h < zlen b1 ->                                      (* they no longer fit *)
   asm_vol pol ffs3 h buf files = Ok (h', nb) ->
-  let len := align_go (zlen b1) s in
-  v_length h' = len /\ v_blocks h' = ((len / s) mod U32, s) :: rest /\
+  let len := fst (resize_len (zlen b1) s rest) in
+  let cnt := snd (resize_len (zlen b1) s rest) in
+  v_length h' = len /\ v_blocks h' = (cnt, s) :: rest /\
   zlen nb = Z.max (zlen b1) len /\
-  sub 32 8 nb = le_enc 8 len /\ sub 56 4 nb = le_enc 4 ((len / s) mod U32).
+  sub 32 8 nb = le_enc 8 len /\ sub 56 4 nb = le_enc 4 cnt.
 Proof. exact nested_volume_grows. Qed.
 Print Assumptions C06_nested_edit_sizes.
+
+(* for the usual single-entry block map with a power-of-two block size that is Align(newlen, blocksize)
+   and the count of whole blocks *)
+Theorem C06_resize_single_entry : forall newlen k, 0 <= k < 64 -> 0 < newlen -> newlen + 2 ^ k <= 2 ^ 64 ->
+  resize_len newlen (2 ^ k) [] = (align_go newlen (2 ^ k), (align_go newlen (2 ^ k) / 2 ^ k) mod U32).
+Proof. exact resize_single. Qed.
+Print Assumptions C06_resize_single_entry.
 
 (* Go's Align on a power-of-two block size rounds up to whole blocks *)
 Theorem C06_align_whole_blocks : forall v k, 0 <= k < 64 -> 0 <= v -> v + 2 ^ k <= 2 ^ 64 ->
@@ -294,3 +341,87 @@ Proof. vm_compute. reflexivity. Qed.
 
 Example ex_align : align_go 100 (2 ^ 4) = 112 /\ align 100 (2 ^ 4) = 112.
 Proof. vm_compute. split; reflexivity. Qed.
+
+(* ---- stage 3 example: a top-level volume (fixed size 512, block size 64) whose only file holds a
+   compressed section around an FV-image section around a nested volume (block size 8, declared
+   length 128, too small for its re-assembled file: it has to grow) that holds [ex_file] ---- *)
+Definition ex_zero : bytes := zrepeat 0 16.
+Definition ex_pin : vparams := mkVP ex_zero 2048 0 2 8 [] 0 [].       (* nested: block size 8 *)
+Definition ex_ptop : vparams := mkVP ex_zero 2048 0 2 64 [] 0 [].     (* top: block size 64 *)
+Definition ex_inner_vol : node :=
+  NVol (vp_hdr ex_pin FFS2 128 0 16 0 true 0)
+       (fv_header ex_zero FFS2 128 2048 0 0 0 2 16 8 [])              (* only the header bytes matter *)
+       [ex_file].
+Definition ex_fvsec : node := NSec (mkSec 0 23 0 4 None [] 0 [] None 0) [] [ex_inner_vol].
+Definition ex_comp_vol : node :=
+  NSec (mkSec 0 2 0 4 (Some (mkGd ZLIB_GUID 24 3 3)) [] 0 [] None 0) [] [ex_fvsec].
+Definition ex_guid2 : bytes := [16; 15; 14; 13; 12; 11; 10; 9; 8; 7; 6; 5; 4; 3; 2; 1].
+Definition ex_vfile : node := NFile (mkFile ex_guid2 0 0 11 0 0 248 0 24 None) [] [ex_comp_vol].
+Definition ex_top_vol : node :=
+  NVol (vp_hdr ex_ptop FFS2 512 0 8 0 false 0)
+       (fv_header ex_zero FFS2 512 2048 0 0 0 2 8 64 [])
+       [ex_vfile].
+
+Lemma ex_vp_ok_in : vp_ok ex_pin.
+Proof. unfold vp_ok; cbn. repeat split; try lia; try reflexivity. left. split; reflexivity. Qed.
+Lemma ex_vp_ok_top : vp_ok ex_ptop.
+Proof. unfold vp_ok; cbn. repeat split; try lia; try reflexivity. left. split; reflexivity. Qed.
+
+Lemma ex_wf_inner_vol : wf xdec xenc idb idb nonv 255 ex_inner_vol.
+Proof.
+  apply (wf_vol xdec xenc idb idb nonv 255 ex_pin FFS2 128 0 0 16 0 true 0); try reflexivity; try discriminate.
+  - exact ex_vp_ok_in.
+  - left; reflexivity.
+  - lia.
+  - apply Forall_cons; [exact ex_wf_file|apply Forall_nil].
+  - apply Forall_cons; [exact I|apply Forall_nil].
+  - vm_compute. split; discriminate.
+  - intros _. split; [reflexivity|]. exists 3. split; [lia|reflexivity].
+Qed.
+Lemma ex_wf_fvsec : wf xdec xenc idb idb nonv 255 ex_fvsec.
+Proof. apply wf_fvimg; try reflexivity; [exact ex_wf_inner_vol|split; reflexivity]. Qed.
+Lemma ex_wf_comp_vol : wf xdec xenc idb idb nonv 255 ex_comp_vol.
+Proof.
+  apply (wf_comp xdec xenc idb idb nonv 255 _ _ _ (mkGd ZLIB_GUID 24 3 3));
+    try reflexivity; try discriminate; try (vm_compute; intuition discriminate).
+  - apply Forall_cons; [exact ex_wf_fvsec|apply Forall_nil].
+  - apply Forall_cons; [exact I|apply Forall_nil].
+Qed.
+Lemma ex_wf_vfile : wf xdec xenc idb idb nonv 255 ex_vfile.
+Proof.
+  apply wf_file; try reflexivity; try discriminate.
+  - apply Forall_cons; [exact ex_wf_comp_vol|apply Forall_nil].
+  - apply Forall_cons; [exact I|apply Forall_nil].
+Qed.
+Lemma ex_wf_top_vol : wf xdec xenc idb idb nonv 255 ex_top_vol.
+Proof.
+  apply (wf_vol xdec xenc idb idb nonv 255 ex_ptop FFS2 512 0 0 8 0 false 0); try reflexivity; try discriminate.
+  - exact ex_vp_ok_top.
+  - left; reflexivity.
+  - lia.
+  - apply Forall_cons; [exact ex_wf_vfile|apply Forall_nil].
+  - apply Forall_cons; [exact I|apply Forall_nil].
+  - vm_compute. split; discriminate.
+Qed.
+
+(* the hypotheses of the stage-3 theorems hold, and the conclusion can be watched by computation: the
+   nested volume grew from 128 to 176 bytes (whole 8-byte blocks), the saved top-level volume still
+   has 512 bytes, parses back (at polarity "unknown") to the same decompressed tree, and saving the
+   re-parsed tree gives the same bytes *)
+Example ex_volume_hypotheses :
+  wf xdec xenc idb idb nonv 255 ex_top_vol /\ is_vol ex_top_vol /\
+  exists t1 st1, asm xenc idb ex_top_vol (255, false) = Ok (t1, st1) /\ small t1 /\ laid t1 /\
+    (height t1 <= 9)%nat /\ zlen (node_buf t1) = 512 /\
+    exists t2, parse_fv xdec idb nonv 9 240 (node_buf t1 ++ [1; 2; 3]) (vol_off t1) (vol_rz t1) = Ok (t2, 255) /\
+               deep t2 = deep ex_top_vol /\
+               exists t3 st3, asm xenc idb t2 (255, false) = Ok (t3, st3) /\ node_buf t3 = node_buf t1.
+Proof.
+  split; [exact ex_wf_top_vol|]. split; [exact I|].
+  eexists. eexists. split; [vm_compute; reflexivity|].
+  split; [vm_compute; intuition reflexivity|].
+  split; [simpl; repeat (split || apply Forall_cons || apply Forall_nil); try reflexivity|].
+  split; [vm_compute; repeat constructor|].
+  split; [vm_compute; reflexivity|].
+  eexists. split; [vm_compute; reflexivity|]. split; [vm_compute; reflexivity|].
+  eexists. eexists. split; vm_compute; reflexivity.
+Qed.
